@@ -140,3 +140,14 @@ Example C19_nonvacuous :
   abs_sub addsub (mkint Minus [5; B - 1]) (mkint Minus [B - 1]) = Ret (mkint NoSign []) /\
   i_from_slice Minus [7; 0; 0; 1; 0; 0] = mkint Minus [7; 4294967296].
 Proof. repeat split; vm_compute; reflexivity. Qed.
+
+(* ---- added by the API audit (docs/API_COVERAGE.md): the derives of `enum Sign { Minus, NoSign, Plus }`:
+   `==` and the order (cmp / partial_cmp / < <= > >=) are those of the sign value -1 / 0 / 1, and the
+   Debug names are pairwise different. *)
+From BigNum Require Import ExtraOrd ExtraOrdProofs.
+Theorem C19_sign_derives : forall a b,
+  sign_eq a b = (sign_z a =? sign_z b) /\
+  ord_of (sign_partial_cmp a b) = zord (sign_z a) (sign_z b) /\
+  (sign_debug a = sign_debug b -> a = b).
+Proof. intros; split; [apply sign_eq_spec|split; [apply sign_ord_spec|apply sign_debug_inj]]. Qed.
+Print Assumptions C19_sign_derives.
